@@ -357,7 +357,7 @@ function spBuf(id,eff,mkres){return function(n){L.push("s"+id,n);if(eff)eff();re
 function regB(i,b){B[i]=b;try{P[i]=new Uint8Array(b)}catch(e){P[i]=null}}
 function chk(){var out=[];for(var i=0;i<B.length;i++){var p=P[i];if(!B[i]||!p){out.push(-1,"");continue}out.push(p.length,String.fromCharCode.apply(null,p))}return out}
 function geo(){var out=[];for(var i=0;i<V.length;i++){var v=V[i];if(!v){out.push(-1,-1,-1,-1);continue}out.push(v.length,v.byteOffset,v.byteLength,B.indexOf(v.buffer))}return out}
-function iter(v,kind,at,eff,limit){var it=kind==="sym"?v[Symbol.iterator]():v[kind]();var out=[];for(var i=0;i<limit;i++){if(i===at&&eff)eff();var r=it.next();if(r.done){out.push("done");break}out.push(r.value)}return out}
+function iter(v,kind,at,eff,limit,again){var it=kind==="sym"?v[Symbol.iterator]():v[kind]();var out=[];for(var i=0;i<limit;i++){if(i===at&&eff)eff();var r=it.next();if(r.done){out.push("done");if(again){if(eff)eff();out.push(it.next().done?"done":"live")}break}out.push(r.value)}return out}
 function gopd(v,k){var d=Object.getOwnPropertyDescriptor(v,k);return d===undefined?undefined:[d.value,d.writable,d.enumerable,d.configurable]}
 function nkeys(v){var ks=Reflect.ownKeys(v),n=0;for(var i=0;i<ks.length;i++){if(typeof ks[i]==="string"&&String(ks[i]>>>0)===ks[i])n++}return n}
 function cctor(id,k){return function(n){L.push("o"+id,n);return V[k]||{}}}
@@ -402,7 +402,7 @@ func (c *jsCtx) js(op *Op) string {
 	case "setFromHex":
 		return fmt.Sprintf("(function(){var r=%s.setFromHex(%s);return [r.read,r.written]})()", v, a)
 	case "iter":
-		return fmt.Sprintf("iter(%s,%s,%d,%s,%d)", v, jsString(op.X), op.At, c.effs(op.E), op.N)
+		return fmt.Sprintf("iter(%s,%s,%d,%s,%d,%v)", v, jsString(op.X), op.At, c.effs(op.E), op.N, op.Fl == "again")
 	case "spread":
 		return fmt.Sprintf("[...%s]", v)
 	case "get":
